@@ -161,7 +161,7 @@ type HCase struct {
 	FailAfter int      `json:"fail_after"`
 	FailFlush int      `json:"fail_flush"`
 	Lines     []string `json:"lines"`
-	Chunks    []string `json:"chunks"` // output of the first shell, sent before the lines
+	Chunks    []string `json:"chunks"`             // output of the first shell, sent before the lines
 	FailHdr   bool     `json:"fail_hdr,omitempty"` // /io only: the initial header flush fails
 }
 
